@@ -63,6 +63,14 @@ def isIntersecting (s : Info) (qf qt : Nat) : Bool :=
     | none => true
     | some d => Dist.isIntersecting d qf qt
 
+/-- `Info.IsIntersecting` over the distribution check as it was before fix c7b3453 (historical counterexample) -/
+def isIntersectingOld (s : Info) (qf qt : Nat) : Bool :=
+  if s.docsTotal = 0 then false
+  else if qt < s.ifrom ∨ s.ito < qf then false
+  else match s.dist with
+    | none => true
+    | some d => Dist.isIntersectingOld d qf qt
+
 /-- the same through the panicking variants (used by the driver) -/
 def isIntersecting? (s : Info) (qf qt : Nat) : Option Bool :=
   if s.docsTotal = 0 then some false
@@ -227,8 +235,8 @@ structure GoodConsts (c : Consts) : Prop where
 built by `BuildDistribution` from a list holding at least the MIDs of `docs` -/
 theorem isIntersecting_build {c : Consts} (hc : GoodConsts c) {s : Info} {docs : List Nat} (hcov : Covers s docs)
     (hnd : s.dist = none) {mids : List Nat} (hsub : ∀ m, m ∈ docs → m ∈ mids)
-    {m qf qt : Nat} (hm : m ∈ docs) (h1 : qf ≤ m) (h2 : m ≤ qt) (hqt : qt < 18446744073709551616)
-    (hs : SameSide qf qt) : isIntersecting (buildDistribution c s mids) qf qt = true := by
+    {m qf qt : Nat} (hm : m ∈ docs) (h1 : qf ≤ m) (h2 : m ≤ qt) (hqt : qt < 18446744073709551616) :
+    isIntersecting (buildDistribution c s mids) qf qt = true := by
   have hf := buildDistribution_fields c s mids
   unfold isIntersecting
   rw [hf.1, hf.2.1, hf.2.2.1]
@@ -246,9 +254,7 @@ theorem isIntersecting_build {c : Consts} (hc : GoodConsts c) {s : Info} {docs :
     simp only
     have hwf := wf_init hc.bucket_pos hc.spread_nonneg hc.max_nonneg hi
     have hfold := Dist.bit_foldl_add hwf mids
-    apply Dist.isIntersecting_of_bit hfold.1
-      (Dist.toInt64_mono_of_sameSide h1 (by omega) (Dist.sameSide_left h1 h2 hs))
-      (Dist.toInt64_mono_of_sameSide h2 hqt (Dist.sameSide_right h1 h2 hs))
+    apply Dist.isIntersecting_of_bit_u hfold.1 h1 h2 hqt
     rw [hfold.2.1 m]
     exact hfold.2.2.2 m (hsub m hm)
 
